@@ -22,11 +22,11 @@ theorem every_request_answered (s : Srv) (r : Request) :
   | itemRemove id => simp [Resp.status]
   | headGet t f c => simp only; unfold handleHead respOfOpt; split <;> (try split) <;> simp [Resp.status]
   | casGet h => simp only; split <;> simp [Resp.status]
-  | casPost => simp only; unfold handleCasPost; split <;> simp [Resp.status]
-  | importR => simp only; unfold handleImport; split <;> (try split) <;> simp [Resp.status]
+  | casPost => simp only; unfold handleCasPost handleCasPostRead; split <;> (try split) <;> simp [Resp.status]
+  | importR => simp only; unfold handleImport handleImportRead; split <;> (try split) <;> (try split) <;> simp [Resp.status]
   | streamAppend t ttl c =>
-    simp only; unfold handleAppend; simp only
-    split <;> (try split) <;> simp [Resp.status]
+    simp only; unfold handleAppend handleAppendRead; simp only
+    split <;> (try split) <;> (try split) <;> simp [Resp.status]
 
 /-- a request answered with a client error changes nothing in the stream -/
 theorem failed_request_no_effect (s : Srv) (r : Request) (he : 400 ≤ (handle s r).2.status) :
@@ -51,13 +51,14 @@ theorem cat_is_store_read (s : Srv) (r : Request) (sse : Bool) (o : ReadOpts)
 /-- POST /{topic} without xs-meta is `Store::append` of exactly that topic, context, ttl and
     content hash; rejected ⇒ 400 -/
 theorem append_is_store_append (s : Srv) (r : Request) (t : List Nat) (ttl : TTL) (c : Nat)
-    (hm : matchRoute r = .streamAppend t ttl c) (hx : r.xsMeta = .absent) (hb : r.body = []) :
+    (hm : matchRoute r = .streamAppend t ttl c) (hx : r.xsMeta = .absent) (hb : r.body = [])
+    (hok : r.bodyBroken = false) :
     handle s r =
       (match s.store.append { topic := t, ctx := c, id := 0, hash := none, mdata := none, ttl := some ttl,
                                decodable := r.metaDecodable } r.newId with
        | .ok (st, f) => ({ s with store := st }, .frame f)
        | .error _ => (s, .badRequest)) := by
-  simp only [handle, hm, handleAppend, hx, hb, List.isEmpty_nil, if_true]
+  simp only [handle, hm, handleAppend, handleAppendRead, hx, hb, hok, Bool.false_eq_true, if_false, List.isEmpty_nil, if_true]
   cases s.store.append _ r.newId with
   | ok p => rfl
   | error e => rfl
